@@ -4,8 +4,10 @@
      Time.UTC().Add(d)                             go1.24.0 time.go: Add / addSec (saturating on the internal seconds)
    Constants (binding, protocol namespace, advertised methods) come from Generated.v.
    The ORIGINAL code (git a3bc48c) is modelled as [metadata_orig] / [metadata_with_slo_orig] for the `_refuted` witnesses.
-   Not modelled: encoding/xml marshalling of the descriptor (checked by the harness: Marshal, Unmarshal, equality). *)
-From V Require Import Base Time Escape SchemaDefs ConcDefs Generated Keys.
+   encoding/xml marshalling of the descriptor: [marshal_descriptor] = the generic interpreter of Marshal.v run on the
+   struct-tag schema of the marshalled types that gen/ extracts from /repo on every run (Generated.metadata_schema /
+   metadata_omitempty); [descriptor_tree] is the hand-written SAML metadata document the theorems compare it with. *)
+From V Require Import Base Time Escape Xml SchemaDefs Schema ConcDefs Generated Keys Marshal XmlTok.
 Local Open Scope string_scope.
 Local Open Scope list_scope.
 Local Open Scope Z_scope.
@@ -137,6 +139,129 @@ Definition published (use : string) (ed : entity_descriptor) : list string :=
 (* every method listed by some case list of a switch *)
 Definition switch_cases_all (cases : list (list string)) : list string := List.concat cases.
 
+(* ---------- xml.Marshal of the descriptor ---------- *)
+(* the Go value as the interpreter of Marshal.v sees it: every field the source sets, by its Go name *)
+Fixpoint method_gvals (ms : list string) (ds : list (option string)) : list gval :=
+  match ms with
+  | [] => []
+  | m :: r =>
+      GStruct [("Algorithm", GStr m);
+               ("DigestMethod", GPtr (match hd None ds with
+                                      | Some a => Some (GStruct [("Algorithm", GStr a)])
+                                      | None => None
+                                      end))] :: method_gvals r (tl ds)
+  end.
+
+Definition kd_gval (kd : key_descriptor) : gval :=
+  GStruct [("Use", GStr (kd_use kd));
+           ("KeyInfo", GStruct [("X509Data", GStruct [("X509Certificates",
+                          GSlice (map (fun s => GStruct [("Data", GStr s)]) (kd_key_info kd)))])]);
+           ("EncryptionMethods", GSlice (method_gvals (kd_methods kd) (kd_method_digests kd)))].
+
+Definition descriptor_gval (d : entity_descriptor) : gval :=
+  GStruct [("ValidUntil", GTime (ed_valid_until d));
+           ("EntityID", GStr (ed_entity_id d));
+           ("SPSSODescriptor", GPtr (if ed_spsso_present d then Some (GStruct [
+               ("AuthnRequestsSigned", GBool (ed_authn_requests_signed d));
+               ("WantAssertionsSigned", GBool (ed_want_assertions_signed d));
+               ("ProtocolSupportEnumeration", GStr (ed_protocol d));
+               ("KeyDescriptors", GSlice (map kd_gval (ed_key_descriptors d)));
+               ("SingleLogoutServices", GSlice (map (fun e => match e with (b, l) =>
+                                            GStruct [("Binding", GStr b); ("Location", GStr l)] end) (ed_slo d)));
+               ("AssertionConsumerServices", GSlice (map (fun e => match e with (b, l, i) =>
+                                            GStruct [("Binding", GStr b); ("Location", GStr l); ("Index", GInt i)] end) (ed_acs d)))])
+             else None))].
+
+(* xml.Marshal(descriptor): the bytes, or the error of time.Time.MarshalText *)
+Definition marshal_descriptor (d : entity_descriptor) : res string :=
+  marshal_bytes metadata_schema metadata_omitempty "EntityDescriptor" (descriptor_gval d).
+
+(* The SAML metadata document of a descriptor, written down by hand (saml-metadata-2.0-os 2.3.2, 2.4.1, 2.4.1.1, 2.4.2,
+   2.4.4; XML-Signature KeyInfo): element names, their name spaces (carried by xmlns attributes, as encoding/xml writes
+   them: on every element whose Go type declares one; the other elements inherit the default name space in scope),
+   attribute names and order, children in the order of the sequence, values un-escaped.  [vu] is the validUntil text. *)
+Definition md_ns : string := "urn:oasis:names:tc:SAML:2.0:metadata".
+Definition ds_ns : string := "http://www.w3.org/2000/09/xmldsig#".
+Definition xa (k v : string) : attr := {| at_space := ""; at_key := k; at_val := v |}.
+
+Definition method_tree (m : string) (dg : option string) : node :=
+  Elem "" "EncryptionMethod" (if (m =?s "")%string then [] else [xa "Algorithm" m])
+       (match dg with
+        | Some a => [Elem "" "DigestMethod" (if (a =?s "")%string then [] else [xa "Algorithm" a]) []]
+        | None => []
+        end).
+Fixpoint method_trees (ms : list string) (ds : list (option string)) : list node :=
+  match ms with
+  | [] => []
+  | m :: r => method_tree m (hd None ds) :: method_trees r (tl ds)
+  end.
+
+Definition kd_tree (kd : key_descriptor) : node :=
+  Elem "" "KeyDescriptor" [xa "xmlns" md_ns; xa "use" (kd_use kd)]
+    (Elem "" "KeyInfo" [xa "xmlns" ds_ns]
+       [Elem "" "X509Data" [xa "xmlns" ds_ns]
+          (map (fun s => Elem "" "X509Certificate" [xa "xmlns" ds_ns] [Text s]) (kd_key_info kd))]
+     :: method_trees (kd_methods kd) (kd_method_digests kd)).
+
+Definition descriptor_tree_with (vu : string) (d : entity_descriptor) : node :=
+  Elem "" "EntityDescriptor" [xa "xmlns" md_ns; xa "validUntil" vu; xa "entityID" (ed_entity_id d)]
+    (if ed_spsso_present d then
+       [Elem "" "SPSSODescriptor"
+          [xa "xmlns" md_ns; xa "AuthnRequestsSigned" (bool_text (ed_authn_requests_signed d));
+           xa "WantAssertionsSigned" (bool_text (ed_want_assertions_signed d));
+           xa "protocolSupportEnumeration" (ed_protocol d)]
+          (map kd_tree (ed_key_descriptors d)
+           ++ map (fun e => match e with (b, l) => Elem "" "SingleLogoutService" [xa "Binding" b; xa "Location" l] [] end) (ed_slo d)
+           ++ map (fun e => match e with (b, l, i) =>
+                     Elem "" "AssertionConsumerService" [xa "Binding" b; xa "Location" l; xa "index" (int_text i)] [] end) (ed_acs d))]
+     else []).
+
+(* validUntil as time.Time.MarshalText writes it (RFC 3339, nanoseconds, "Z"); when MarshalText fails (year outside
+   0..9999) there is no document: Marshal returns the error *)
+Definition descriptor_tree (d : entity_descriptor) : option node :=
+  match marshal_text_utc (ed_valid_until d) with
+  | Some vu => Some (descriptor_tree_with vu d)
+  | None => None
+  end.
+
+(* ---------- reading a descriptor back out of an unmarshalled value (Schema.gval), field by Go field name ---------- *)
+Definition g_field (name : string) (g : gval) : option gval :=
+  match g with GStruct fs => assoc_get name fs | _ => None end.
+Definition g_sub (name : string) (o : option gval) : option gval :=
+  match o with Some g => g_field name g | None => None end.
+Definition g_str (o : option gval) : string := match o with Some (GStr s) => s | _ => "" end.
+Definition g_bool (o : option gval) : bool := match o with Some (GBool b) => b | _ => false end.
+Definition g_int (o : option gval) : Z := match o with Some (GInt z) => z | _ => 0 end.
+Definition g_time (o : option gval) : instant := match o with Some (GTime t) => t | _ => zero_time end.
+Definition g_slice (o : option gval) : list gval := match o with Some (GSlice l) => l | _ => [] end.
+
+Definition gval_kd (g : gval) : key_descriptor :=
+  let certs := map (fun x => g_str (g_field "Data" x))
+                   (g_slice (g_sub "X509Certificates" (g_sub "X509Data" (g_field "KeyInfo" g)))) in
+  let ms := g_slice (g_field "EncryptionMethods" g) in
+  {| kd_use := g_str (g_field "Use" g);
+     kd_cert := hd "" certs;
+     kd_methods := map (fun m => g_str (g_field "Algorithm" m)) ms;
+     kd_key_info := certs;
+     kd_method_digests := map (fun m => match g_field "DigestMethod" m with
+                                        | Some (GPtr (Some dg)) => Some (g_str (g_field "Algorithm" dg))
+                                        | _ => None
+                                        end) ms |}.
+
+Definition gval_descriptor (g : gval) : entity_descriptor :=
+  let sp := match g_field "SPSSODescriptor" g with Some (GPtr (Some s)) => Some s | _ => None end in
+  {| ed_valid_until := g_time (g_field "ValidUntil" g);
+     ed_entity_id := g_str (g_field "EntityID" g);
+     ed_authn_requests_signed := g_bool (g_sub "AuthnRequestsSigned" sp);
+     ed_want_assertions_signed := g_bool (g_sub "WantAssertionsSigned" sp);
+     ed_protocol := g_str (g_sub "ProtocolSupportEnumeration" sp);
+     ed_key_descriptors := map gval_kd (g_slice (g_sub "KeyDescriptors" sp));
+     ed_acs := map (fun e => (g_str (g_field "Binding" e), g_str (g_field "Location" e), g_int (g_field "Index" e)))
+                   (g_slice (g_sub "AssertionConsumerServices" sp));
+     ed_slo := map (fun e => (g_str (g_field "Binding" e), g_str (g_field "Location" e)))
+                   (g_slice (g_sub "SingleLogoutServices" sp));
+     ed_spsso_present := match sp with Some _ => true | None => false end |}.
+
 (* ---------- observables ---------- *)
 Definition instant_val (t : instant) : val := VC "T" [VZ (i_sec t); VZ (i_nsec t)].
 Definition kd_val (kd : key_descriptor) : val := VC "KD" [VS (kd_use kd); VS (kd_cert kd); VL (map VS (kd_methods kd))].
@@ -145,6 +270,27 @@ Definition ed_val (ed : entity_descriptor) : val :=
             VB (ed_want_assertions_signed ed); VS (ed_protocol ed); VL (map kd_val (ed_key_descriptors ed));
             VL (map (fun e => match e with (b, l, i) => VL [VS b; VS l; VZ i] end) (ed_acs ed));
             VL (map (fun e => match e with (b, l) => VL [VS b; VS l] end) (ed_slo ed)) ].
+
+(* what the reader-side models make of marshalled bytes: XmlTok.read_tree (encoding/xml RawToken + etree's tree builder),
+   then Unmarshal (Schema.v on the generated metadata schema), projected like [ed_val]; compared with the real
+   xml.Unmarshal of the real bytes *)
+Definition readback_val (bytes : string) : val :=
+  match read_tree bytes with
+  | Ok t => match unmarshal_parsed metadata_schema "EntityDescriptor" t with
+            | Ok g => VC "Ok" [ed_val (gval_descriptor g)]
+            | Err _ => VC "UnmarshalErr" []
+            end
+  | Err _ => VC "ReadErr" []
+  end.
+
+(* the bytes of both variants (correspondence with xml.Marshal(sp.Metadata()) / xml.Marshal(sp.MetadataWithSLO(h))) and
+   what is read back from them *)
+Definition md_xml_obs (i : md_config * instant * Z) : val :=
+  match i with
+  | (c, now, h) =>
+      let f d := res_val (fun b => VL [VS b; readback_val b]) (marshal_descriptor d) in
+      VL [kres_val f (metadata c now); kres_val f (metadata_with_slo c now h)]
+  end.
 
 (* both variants for one configuration, clock and hour count *)
 Definition md_obs (i : md_config * instant * Z) : val :=
@@ -179,6 +325,12 @@ Definition c19_obs (k : c19_case) : val :=
                   kcase_certs := cc_certs k |};
        md_obs ({| mc_keys := cfg; mc_issuer := cc_issuer k; mc_acs_url := cc_acs_url k; mc_slo_url := cc_slo_url k;
                   mc_sign_requests := cc_sign_requests k; mc_skip_sig := cc_skip_sig k |}, cc_now k, cc_hours k) ]).
+
+(* the marshalled bytes of both variants for the same generated case *)
+Definition c19_xml_obs (k : c19_case) : val :=
+  let (cfg, _) := apply_calls (cc_fields k) (cc_calls k) in
+  abbrev (cc_abbrev k) (md_xml_obs ({| mc_keys := cfg; mc_issuer := cc_issuer k; mc_acs_url := cc_acs_url k; mc_slo_url := cc_slo_url k;
+                 mc_sign_requests := cc_sign_requests k; mc_skip_sig := cc_skip_sig k |}, cc_now k, cc_hours k)).
 
 (* stale-cache scenario: configuration [calls1], first signature, then [calls2], second signature *)
 Definition c19_stale_obs (i : keycfg * list setter_call * list setter_call * string * list (string * string)) : val :=
